@@ -6,7 +6,8 @@ the five public entry points that take a stringency:
   line     MafRecord.from_line(line, column_names/scheme, line_number, validation_stringency=m)
   validate record.validate(validation_stringency=m, reset_errors, scheme) on a record parsed in Silent mode
   reader   MafReader(lines, validation_stringency=m, scheme=...) iterated to the end
-  writer   MafWriter.from_fd(StringIO, header, validation_stringency=m) and `writer += record` for each record
+  writer   MafWriter.from_fd(StringIO, ...) or MafWriter.from_path(scratch file, plain or .gz) with
+           validation_stringency=m, and `writer += record` for each record
 Logs are captured with a handler on the `maflib` logger.  Oracle (independent
 of the model): Silent and Lenient give identical results and error lists and
 never raise MafFormatException; Silent logs nothing; Lenient logs a WARNING for
@@ -25,7 +26,8 @@ RULE = ("one input under the three stringencies for each of five entry points: h
         "from the real classes' accepted texts; defects: field count, invalid/control-character field, names not "
         "matching the scheme, duplicated names, no line number), record.validate (reset on/off, scheme none/same/"
         "other, stored columns modified in place: column_index or key reassigned), whole files (the valid/defect/boundary/adversarial stream of C16, with and without sort orders and "
-        "contigs), writer sessions (header with/without scheme, 0-4 records some invalid); non-trivial: at least one "
+        "contigs), writer sessions (header with/without scheme, 0-4 records some invalid; through from_fd on StringIO "
+        "and from_path on plain and .gz scratch files under /verif/work); non-trivial: at least one "
         "validation error is collected in Silent mode; distinct by case hash")
 ASSUMPTIONS = [
     "typed column classes are represented in the extracted run by an oracle table from the real classes (see C16)",
@@ -120,7 +122,8 @@ def _gen_writer(rng, stream):
             if stream != "valid" and rng.random() < 0.4:
                 line = _spoil(rng, line).replace("\n", " ")
             specs.append({"line": line, "names": names, "scheme": None, "ln": rng.choice([None, 5])})
-    return {"kind": "writer", "stream": stream, "hlines": hl, "specs": specs}
+    return {"kind": "writer", "stream": stream, "hlines": hl, "specs": specs,
+            "channel": rng.choice(["fd", "fd", "path", "gz", "gz"])}
 
 
 def _gen_header(rng, stream):
@@ -138,6 +141,13 @@ def corpus():
         # stored columns modified in place: out-of-sync records are validation errors (AssertionError before the repair)
         {"kind": "validate", "stream": "corpus", "spec": {"line": "1\t2", "names": ["a", "b"], "scheme": None, "ln": 9},
          "reset": True, "vscheme": None, "tamper": [["idx", "a", 1], ["key", "b", "c"]]},
+        # from_path channels: a header without a version / a record with a wrong field count, plain and gzip
+        {"kind": "writer", "stream": "corpus", "hlines": ["#center x"], "channel": "gz",
+         "specs": [{"line": "1\t2", "names": ["a", "b"], "scheme": None, "ln": None}]},
+        {"kind": "writer", "stream": "corpus", "hlines": ["#version gdc-1.0.0"], "channel": "gz",
+         "specs": [{"line": "1", "names": None, "scheme": GDC, "ln": 3}]},
+        {"kind": "writer", "stream": "corpus", "hlines": ["#center x"], "channel": "path",
+         "specs": [{"line": "1", "names": ["a", "b"], "scheme": None, "ln": 2}]},
         {"kind": "writer", "stream": "corpus", "hlines": ["#version bogus"],
          "specs": [{"line": "1\t2", "names": ["a", "b"], "scheme": None, "ln": None},
                    {"line": "1", "names": ["a", "b"], "scheme": None, "ln": 2}]},
@@ -215,7 +225,7 @@ def _impl(case, m):
         return R.impl_from_line(case["spec"], m)
     if k == "validate":
         return R.impl_validate(case["spec"], m, case["reset"], case["vscheme"], case.get("tamper"))
-    return R.impl_writer(case["hlines"], m, case["specs"])
+    return R.impl_writer(case["hlines"], m, case["specs"], case.get("channel", "fd"))
 
 
 def _dec(case, sx):
@@ -404,7 +414,8 @@ def classify(case, obs):
     if obs is None:
         return "%s/%s/error" % (case["kind"], case["stream"])
     n = _nerrs(case, obs)
-    return "%s/%s/errors=%s" % (case["kind"], case["stream"], "0" if n == 0 else ("1" if n == 1 else "2+"))
+    kind = case["kind"] + ("-" + case.get("channel", "fd") if case["kind"] == "writer" else "")
+    return "%s/%s/errors=%s" % (kind, case["stream"], "0" if n == 0 else ("1" if n == 1 else "2+"))
 
 
 def nontrivial(case, obs):
